@@ -1,6 +1,6 @@
 import TTV.Props.C03
 import TTV.Spec.C05
-import TTV.Lemmas.RunDetailsCore
+import TTV.Lemmas.RunUnique
 /-! # C05 — all details and every traceback reach the result
 
 Same quantifier as C01 (`Props/C01.lean`).  Hypothesis `wf p` (see `Spec/RunCommon.lean`), which for this
@@ -211,6 +211,184 @@ theorem tbs_related (excs X T : List Exc) (h : T.Perm (tbFilter excs ++ X)) :
   refine List.Perm.trans ?_ (h.symm.append_right _)
   simp only [tbFilter, List.append_assoc]
   exact List.Perm.append_left _ List.perm_append_comm
+
+/-! ### details stored under unique names -/
+theorem Match2_contents : ∀ (U E : List (DName × Content)), Match2 U E → E.map (·.2) = U.map (·.2)
+  | [], [], _ => rfl
+  | [], _ :: _, h => absurd h (by simp [Match2])
+  | _ :: _, [], h => absurd h (by simp [Match2])
+  | u :: us, x :: xs, h => by
+    simp only [Match2] at h
+    simp [h.1, Match2_contents us xs h.2.2]
+
+theorem Match2_mem : ∀ (U E : List (DName × Content)), Match2 U E →
+    ∀ u ∈ U, ∃ m, (m, u.2) ∈ E ∧ isRenaming u.1 m = true
+  | [], _, _, u, hu => by simp at hu
+  | _ :: _, [], h, _, _ => absurd h (by simp [Match2])
+  | u0 :: us, x :: xs, h, u, hu => by
+    simp only [Match2] at h
+    simp only [List.mem_cons] at hu
+    rcases hu with rfl | hu
+    · exact ⟨x.1, by rw [← h.1]; exact List.mem_cons_self, h.2.1⟩
+    · obtain ⟨m, hm, hr⟩ := Match2_mem us xs h.2.2 u hu
+      exact ⟨m, List.mem_cons_of_mem _ hm, hr⟩
+
+theorem isUq_freeze (k : Nat) (c : Content) : isUq (freeze k c) = isUq c := by
+  cases c with
+  | user u => obtain ⟨i, l⟩ := u; cases l <;> rfl
+  | frozen i v => rfl
+  | tb e => rfl
+  | expectation m => rfl
+  | reason r => rfl
+
+theorem freeze_idem (a b : Nat) (c : Content) : freeze a (freeze b c) = freeze b c := by
+  cases c with
+  | user u => obtain ⟨i, l⟩ := u; cases l <;> rfl
+  | frozen i v => rfl
+  | tb e => rfl
+  | expectation m => rfl
+  | reason r => rfl
+
+theorem length_filter_eq_count {α : Type} (l : List α) (h : α → Content) (c : Content) :
+    (l.filter fun x => h x == c).length = (l.map h).count c := by
+  induction l with
+  | nil => rfl
+  | cons x xs ih =>
+    simp only [List.filter_cons, List.map_cons, List.count_cons]
+    split <;> simp_all
+
+theorem ckey_of_isUq (c : Content) (h : isUq c = true) : ∃ key, ckey c = some key := by
+  cases c <;> simp_all [isUq, ckey]
+
+theorem nodup_contents (k : Nat) : ∀ (U : List (DName × Content)), (∀ x ∈ U, isUq x.2 = true) → (keysU U).Nodup →
+    (U.map fun x => freeze k x.2).Nodup
+  | [], _, _ => by simp
+  | x :: xs, hU, hk => by
+    obtain ⟨key, hkey⟩ := ckey_of_isUq x.2 (hU x List.mem_cons_self)
+    simp only [keysU, List.filterMap_cons, hkey, List.nodup_cons] at hk
+    simp only [List.map_cons, List.nodup_cons]
+    refine ⟨?_, nodup_contents k xs (fun y hy => hU y (List.mem_cons_of_mem _ hy)) hk.2⟩
+    intro hm
+    obtain ⟨y, hy, he⟩ := List.mem_map.mp hm
+    apply hk.1
+    rw [List.mem_filterMap]
+    refine ⟨y, hy, ?_⟩
+    have := congrArg ckey he
+    rw [ckey_freeze, ckey_freeze] at this
+    rw [this, hkey]
+
+theorem timed_eq_aux (p : Program) : ∀ (l : List Stage) (k0 : Nat), (∀ st ∈ l, findStage p st.id = some st) →
+    (((l.map Stage.id).zipIdx k0).filterMap fun (id, k) => (findStage p id).map fun st => (k, st)) =
+      (l.zipIdx k0).map fun x => (x.2, x.1)
+  | [], _, _ => rfl
+  | x :: xs, k0, h => by
+    simp only [List.map_cons, List.zipIdx_cons, List.filterMap_cons, h x List.mem_cons_self, Option.map_some]
+    rw [timed_eq_aux p xs (k0 + 1) (fun st hst => h st (List.mem_cons_of_mem _ hst))]
+
+theorem mem_uqActs_expect : ∀ (as : List Act) (mid : Nat) (ds : List (DName × UC)), Act.expect mid ds ∈ as →
+    (nmExpectation, Content.expectation mid) ∈ uqActs as ∧ ∀ x ∈ ds, (x.1, Content.user x.2) ∈ uqActs as
+  | [], _, _, h => by simp at h
+  | a :: as, mid, ds, h => by
+    have ih := mem_uqActs_expect as mid ds
+    simp only [List.mem_cons] at h
+    rcases h with rfl | h
+    · refine ⟨by simp [uqActs], fun x hx => ?_⟩
+      simp only [uqActs, List.mem_append, List.mem_map]
+      exact Or.inl (Or.inl ⟨x, hx, rfl⟩)
+    · obtain ⟨h1, h2⟩ := ih h
+      cases a with
+      | expect m' ds' =>
+        exact ⟨by simp only [uqActs, List.mem_append]; exact Or.inr h1,
+          fun x hx => by simp only [uqActs, List.mem_append]; exact Or.inr (h2 x hx)⟩
+      | cleanup s => exact ⟨h1, h2⟩
+      | addDetail n c => exact ⟨h1, h2⟩
+      | patch k v => exact ⟨h1, h2⟩
+      | useFixture f ds' cu => exact ⟨h1, h2⟩
+
+theorem lastAdd_some_of_mem (A : List (DName × UC)) (n : DName) (h : n ∈ A.map (·.1)) : ∃ c, lastAdd A n = some c := by
+  obtain ⟨x, hx, he⟩ := List.mem_map.mp h
+  unfold lastAdd
+  cases hf : A.reverse.find? (fun x => x.1 == n) with
+  | some y => exact ⟨y.2, rfl⟩
+  | none =>
+    have := List.find?_eq_none.mp hf x (by simpa using hx)
+    simp [he] at this
+
+theorem find_of_mem_nodup : ∀ (d : Details), (dnames d).Nodup → ∀ x ∈ d, d.find? (fun y => y.1 == x.1) = some x
+  | [], _, x, hx => by simp at hx
+  | y :: d, hnd, x, hx => by
+    simp only [dnames, List.map_cons, List.nodup_cons] at hnd
+    simp only [List.mem_cons] at hx
+    rcases hx with rfl | hx
+    · simp
+    · have hne : (y.1 == x.1) = false := by
+        simp only [beq_eq_false_iff_ne, ne_eq]
+        intro e; exact hnd.1 (e ▸ List.mem_map_of_mem hx)
+      simp only [List.find?_cons, hne]
+      exact find_of_mem_nodup d hnd.2 x hx
+
+/-- a detail stored under a unique name is reported exactly once, under its name or a `-k` renaming -/
+theorem stored_once {FD : Details} {pl : List DName} {T : List Exc} {A : List (DName × UC)}
+    {U : List (DName × Content)} (k : Nat) (hJ : J FD pl false T A U) (hK : (keysU U ++ keysA A).Nodup)
+    (u : DName × Content) (hu : u ∈ U) :
+    ((FD.map fun x => (x.1, freeze k x.2)).filter fun x => x.2 == freeze k u.2).length = 1 ∧
+    (FD.map fun x => (x.1, freeze k x.2)).any (fun x => x.2 == freeze k u.2 && isRenaming u.1 x.1) = true := by
+  have hM := hJ.uqs rfl
+  have hC := Match2_contents _ _ hM
+  have hUq : ∀ x ∈ U, isUq x.2 = true := by
+    intro x hx
+    have : x.2 ∈ (uqEntries FD pl).map (·.2) := by rw [hC]; exact List.mem_map_of_mem hx
+    obtain ⟨e, he, hee⟩ := List.mem_map.mp this
+    have := (List.mem_filter.mp he).2
+    simp only [Bool.and_eq_true] at this
+    rw [← hee]; exact this.2
+  refine ⟨?_, ?_⟩
+  · have e1 : ((FD.map fun x => (x.1, freeze k x.2)).filter fun x => x.2 == freeze k u.2) =
+        (FD.filter fun x => freeze k x.2 == freeze k u.2).map fun x => (x.1, freeze k x.2) := by
+      rw [List.filter_map]; rfl
+    rw [e1, List.length_map]
+    have e2 : (FD.filter fun x => freeze k x.2 == freeze k u.2) =
+        ((uqEntries FD pl).filter fun x => freeze k x.2 == freeze k u.2) := by
+      unfold uqEntries
+      rw [List.filter_filter]
+      apply List.filter_congr
+      intro x hx
+      cases hq : (freeze k x.2 == freeze k u.2) with
+      | false => rfl
+      | true =>
+        have hq' : freeze k x.2 = freeze k u.2 := by simpa using hq
+        have hiu : isUq x.2 = true := by
+          rw [← isUq_freeze k, hq', isUq_freeze]; exact hUq u hu
+        have hnp : x.1 ∉ pl := by
+          intro hp
+          obtain ⟨c0, hc0⟩ := lastAdd_some_of_mem A x.1 (hJ.plainSub x.1 hp)
+          have hf := hJ.ud x.1 c0 hc0
+          rw [find_of_mem_nodup FD hJ.nodup x hx] at hf
+          have hxa : (x.1, c0) ∈ A := lastAdd_mem A x.1 c0 hc0
+          have hk1 : ckey (freeze k x.2) = some (0, c0.id) := by
+            rw [ckey_freeze]
+            have : x.2 = .user c0 := by
+              have := congrArg Prod.snd (Option.some.inj hf)
+              exact this
+            rw [this]; rfl
+          have hk2 : (0, c0.id) ∈ keysA A := List.mem_map.mpr ⟨_, hxa, rfl⟩
+          have hk3 : (0, c0.id) ∈ keysU U := by
+            rw [keysU, List.mem_filterMap]
+            refine ⟨u, hu, ?_⟩
+            rw [← ckey_freeze k, ← hq', hk1]
+          exact (List.nodup_append.mp hK).2.2 _ hk3 _ hk2 rfl
+        simp [hnp, hiu]
+    rw [e2, length_filter_eq_count]
+    have e3 : (uqEntries FD pl).map (fun x => freeze k x.2) = U.map (fun x => freeze k x.2) := by
+      have := congrArg (List.map (freeze k)) hC
+      simpa [List.map_map, Function.comp_def] using this
+    rw [e3, (nodup_contents k U hUq (List.nodup_append.mp hK).1).count]
+    simp only [List.mem_map]
+    rw [if_pos ⟨u, hu, rfl⟩]
+  · obtain ⟨m, hm, hr⟩ := Match2_mem _ _ hM u hu
+    have hmf : (m, u.2) ∈ FD := (List.mem_filter.mp hm).1
+    rw [List.any_eq_true]
+    exact ⟨(m, freeze k u.2), List.mem_map.mpr ⟨_, hmf, rfl⟩, by simp [hr]⟩
 
 /-! ## per-run clauses on the model's trace -/
 section perRun
